@@ -21,6 +21,10 @@ import (
 // One case in 25 (class scale): the document has padded containers (arrays of 17..300 elements whose
 // new elements are records like their siblings, objects of 16..70 members; Inflate in b9_scale.go), and
 // 60% of these paths lead to a padded container and put the emphasised filter on it.
+// One case in 40 (class foreign-leaf, c04ForeignCase in b12_helpers.go): 1..3 members / elements are Go values
+// outside the JSON model (map[interface{}]interface{}, map[string]int, []string … also one level inside JSON
+// containers), reached by child / index / wildcard steps; document and an independently built twin must stay
+// reflect.DeepEqual (dynamic types of these leaves included). No model question for this class.
 
 type c04 struct{}
 
@@ -430,6 +434,9 @@ func c04Touch(out Outcome) {
 
 func (c04) Exec(seed int64, i int, tier string) Record {
 	r := CaseRng(seed, "C04", i)
+	if i%40 == 23 {
+		return c04ForeignCase(r) // class foreign-leaf (b12_helpers.go)
+	}
 	var doc interface{}
 	var p *Path
 	var gtags []string
